@@ -1,0 +1,45 @@
+//go:build verif
+
+// Contracts for the fixed-buffer binary writer (read as text by /verif's govc; comment-only).
+// View: the byte array w.buf and the write offset. A full buffer writes nothing and returns 0.
+
+package binary
+
+//@ spec func wfW(w *Writer) bool = 0 <= w.offset && w.offset <= len(w.buf)
+
+//@ func (w *Writer) Uint8(value uint8) (n int)
+//@   requires wfW(w)
+//@   ensures  wfW(w) && len(w.buf) == old(len(w.buf))
+//@   ensures  old(w.offset)+1 > old(len(w.buf)) ==> n == 0 && w.offset == old(w.offset) && (forall i int :: 0 <= i && i < len(w.buf) ==> w.buf[i] == old(w.buf[i]))
+//@   ensures  old(w.offset)+1 <= old(len(w.buf)) ==> n == 1 && w.offset == old(w.offset)+1 && w.buf[old(w.offset)] == value && (forall i int :: 0 <= i && i < len(w.buf) && i != old(w.offset) ==> w.buf[i] == old(w.buf[i]))
+//@   modifies &w.buf, &w.offset
+//@ func (w *Writer) Uint32(value uint32) (n int)
+//@   requires wfW(w)
+//@   ensures  wfW(w) && len(w.buf) == old(len(w.buf))
+//@   ensures  old(w.offset)+4 > old(len(w.buf)) ==> n == 0 && w.offset == old(w.offset) && (forall i int :: 0 <= i && i < len(w.buf) ==> w.buf[i] == old(w.buf[i]))
+//@   ensures  old(w.offset)+4 <= old(len(w.buf)) ==> n == 4 && w.offset == old(w.offset)+4 && (forall i int :: 0 <= i && i < len(w.buf) && (i < old(w.offset) || i >= old(w.offset)+4) ==> w.buf[i] == old(w.buf[i]))
+//@   ensures  old(w.offset)+4 <= old(len(w.buf)) ==> w.byteOrder.Uint32(w.buf[old(w.offset):old(w.offset)+4]) == value
+//@   modifies &w.buf, &w.offset
+//@ func (w *Writer) Uint64(value uint64) (n int)
+//@   requires wfW(w)
+//@   ensures  wfW(w) && len(w.buf) == old(len(w.buf))
+//@   ensures  old(w.offset)+8 > old(len(w.buf)) ==> n == 0 && w.offset == old(w.offset) && (forall i int :: 0 <= i && i < len(w.buf) ==> w.buf[i] == old(w.buf[i]))
+//@   ensures  old(w.offset)+8 <= old(len(w.buf)) ==> n == 8 && w.offset == old(w.offset)+8 && (forall i int :: 0 <= i && i < len(w.buf) && (i < old(w.offset) || i >= old(w.offset)+8) ==> w.buf[i] == old(w.buf[i]))
+//@   ensures  old(w.offset)+8 <= old(len(w.buf)) ==> w.byteOrder.Uint64(w.buf[old(w.offset):old(w.offset)+8]) == value
+//@   modifies &w.buf, &w.offset
+//@ func (w *Writer) Write(data []byte) (n int)
+//@   requires wfW(w)
+//@   ensures  wfW(w) && len(w.buf) == old(len(w.buf))
+//@   ensures  n == min(old(len(w.buf)) - old(w.offset), len(data)) && w.offset == old(w.offset) + n
+//@   ensures  forall i int :: 0 <= i && i < n ==> w.buf[old(w.offset)+i] == data[i]
+//@   ensures  forall i int :: 0 <= i && i < len(w.buf) && (i < old(w.offset) || i >= old(w.offset)+n) ==> w.buf[i] == old(w.buf[i])
+//@   modifies &w.buf, &w.offset
+//@ func (w *Writer) Reset()
+//@   ensures w.offset == 0 && len(w.buf) == old(len(w.buf))
+//@   modifies &w.offset
+//@ func (w *Writer) Resize(size int)
+//@   requires wfW(w) && size >= 0
+//@   ensures  wfW(w) && len(w.buf) == size
+//@   ensures  w.offset == min(old(w.offset), size)
+//@   ensures  forall i int :: 0 <= i && i < min(size, old(len(w.buf))) ==> w.buf[i] == old(w.buf[i])
+//@   modifies &w.buf, &w.offset
